@@ -36,14 +36,41 @@ func checkRequireJSON(req *protocol.Request, tagInfo TagInfo) bool {
 	if !strings.EqualFold(utils.FilterContentType(ct), consts.MIMEApplicationJSON) {
 		return false
 	}
-	result := gjson.GetBytes(req.Body(), tagInfo.JSONName)
-	if !result.Exists() {
+	if !jsonKeyExists(req.Body(), tagInfo.JSONName) {
 		idx := strings.LastIndex(tagInfo.JSONName, ".")
 		// There should be a superior if it is empty, it will report 'true' for required
-		if idx > 0 && !gjson.GetBytes(req.Body(), tagInfo.JSONName[:idx]).Exists() {
+		if idx > 0 && !jsonKeyExists(req.Body(), tagInfo.JSONName[:idx]) {
 			return true
 		}
 		return false
+	}
+	return true
+}
+
+// jsonKeyExists reports whether body carries the member named by the dotted path name.
+// Member names are matched the way the JSON decoder matches them to struct fields:
+// exactly, or else ignoring case.
+func jsonKeyExists(body []byte, name string) bool {
+	if gjson.GetBytes(body, name).Exists() {
+		return true
+	}
+	cur := gjson.ParseBytes(body)
+	for _, seg := range strings.Split(name, ".") {
+		if !cur.IsObject() {
+			return false
+		}
+		var next gjson.Result
+		cur.ForEach(func(key, value gjson.Result) bool {
+			if strings.EqualFold(key.String(), seg) {
+				next = value
+				return false
+			}
+			return true
+		})
+		if !next.Exists() {
+			return false
+		}
+		cur = next
 	}
 	return true
 }
@@ -53,6 +80,5 @@ func keyExist(req *protocol.Request, tagInfo TagInfo) bool {
 	if !strings.EqualFold(utils.FilterContentType(ct), consts.MIMEApplicationJSON) {
 		return false
 	}
-	result := gjson.GetBytes(req.Body(), tagInfo.JSONName)
-	return result.Exists()
+	return jsonKeyExists(req.Body(), tagInfo.JSONName)
 }
